@@ -50,7 +50,8 @@ def worker(ctx):
             case_id = ctx.replay["witness"]["case"]
             rng = __import__("random").Random(f"{ctx.replay['seed']}:C08:{ctx.replay['witness']['shard']}:case:{case_id}")
         cfg = GenCfg(msg_bits=300, max_fields=5, n_top=(1, 4), max_depth=3, p_nested=0.5)
-        cfg.n_imports = (1, 1) if case_id % 3 == 0 else (0, 0)
+        cfg.n_imports = ((2, 2) if case_id % 9 == 0 else (1, 1)) if case_id % 3 == 0 else (0, 0)
+        cfg.p_import_chain = 0.7  # second-level imports: the violation may sit in a file imported by an imported file
         cfg.allow_empty_enum = True
         root = gen.gen_schema(rng, cfg)
         entry = NAMES[(case_id // 2) % len(NAMES)] if case_id % 6 != 5 else None  # every sixth case: the untouched valid schema
